@@ -244,24 +244,24 @@ func TestCheck(t *testing.T) {
 				"(sender section: write{1..2} then abort | precommit then commit | precommit then abort; receiver section: read/length{1..2} then commit | abort) in every interleaving " +
 				"with at most <budget> deviations (a deviation = switching away from a participant in the middle of its section, or reading an empty mailbox: timeout or read left blocked while senders go on), " +
 				"followed by a drain; distinct = distinct observed operation/answer traces",
-			"samples":               samples,
-			"per_configuration":     perCfg,
-			"exhaustive":            exhaustive,
-			"cap_hit":               capHit,
-			"divergences":           divergences,
-			"discarded_env_timeout": discarded,
-			"env_timeouts":          envTimeouts.Load(),
-			"spurious_aborts":       spuriousAborts.Load(),
-			"spurious_aborts_by_op": spurious,
+			"samples":                samples,
+			"per_configuration":      perCfg,
+			"exhaustive":             exhaustive,
+			"cap_hit":                capHit,
+			"divergences":            divergences,
+			"discarded_env_timeout":  discarded,
+			"env_timeouts":           envTimeouts.Load(),
+			"spurious_aborts":        spuriousAborts.Load(),
+			"spurious_aborts_by_op":  spurious,
 			"unconfirmed_candidates": unconfirmed(viol),
-			"expected_aborts":       expectedAborts.Load(),
-			"socket_operations":     sockOps.Load(),
-			"overlapped_reads":      overlappedReads.Load(),
-			"bubble_operations":     bubbleOps.Load(),
-			"bubble_ticks":          bubbleTicks.Load(),
-			"bubble_parked_ops":     bubbleBlocks.Load(),
-			"goroutines_at_end":     runtime.NumGoroutine(),
-			"not_covered":           "connection failure; goroutine interleavings inside handleConn; more than 2 senders / 1 receiver; more sections than the bounds",
+			"expected_aborts":        expectedAborts.Load(),
+			"socket_operations":      sockOps.Load(),
+			"overlapped_reads":       overlappedReads.Load(),
+			"bubble_operations":      bubbleOps.Load(),
+			"bubble_ticks":           bubbleTicks.Load(),
+			"bubble_parked_ops":      bubbleBlocks.Load(),
+			"goroutines_at_end":      runtime.NumGoroutine(),
+			"not_covered":            "connection failure; goroutine interleavings inside handleConn; more than 2 senders / 1 receiver; more sections than the bounds",
 		}
 		return res
 	})
